@@ -357,7 +357,7 @@ def _inline_one(fn, blk, idx, h, serial, repo):
             if d and d.get("kind") in ("local", "param", "staticlocal") and "id" in d:
                 if d["id"] in newid:
                     e["decl"] = dict(d, id=newid[d["id"]], kind="local")
-                elif d.get("kind") == "local":
+                elif d.get("kind") == "local" and d["id"] != rid:
                     e["decl"] = dict(d, id=vbase + d["id"] % 90000)
             for dd in e.get("decls") or []:
                 if isinstance(dd, dict) and dd.get("kind") == "local" and "id" in dd:
@@ -372,6 +372,41 @@ def _inline_one(fn, blk, idx, h, serial, repo):
         newblocks.append(nb)
     fn["blocks"].append(B2)
     fn["blocks"].extend(newblocks)
+    # a test in the copy that the arguments decide (a literal handed in for the parameter it looks at) has one way out
+    index = {b["id"]: b for b in fn["blocks"]}
+
+    def value(ref, depth=0):
+        b = index.get(ref[0])
+        e = b["elems"][ref[1]] if b is not None and 0 <= ref[1] < len(b["elems"]) else None
+        if e is None or depth > 12:
+            return None
+        if e.get("val") is not None and e.get("cls") != "DeclRefExpr":
+            try:
+                return int(e["val"])
+            except (TypeError, ValueError):
+                return None
+        c = e.get("cls")
+        ks = e.get("kids") or []
+        if c in ("ImplicitCastExpr", "CStyleCastExpr", "ParenExpr", "ConstantExpr") and ks and ks[0] is not None and e.get("op") != "LValueToRValue":
+            return value(ks[0], depth + 1)
+        if c == "UnaryOperator" and e.get("op") == "!" and ks and ks[0] is not None:
+            v = value(ks[0], depth + 1)
+            return None if v is None else int(not v)
+        if c == "BinaryOperator" and e.get("op") in ("==", "!=", "<", "<=", ">", ">=") and len(ks) == 2 and ks[0] is not None and ks[1] is not None:
+            a, b2 = value(ks[0], depth + 1), value(ks[1], depth + 1)
+            if a is None or b2 is None:
+                return None
+            return int({"==": a == b2, "!=": a != b2, "<": a < b2, "<=": a <= b2, ">": a > b2, ">=": a >= b2}[e["op"]])
+        return None
+    for nb in newblocks:
+        if len(nb.get("succs") or []) != 2 or (nb.get("term") or {}).get("cls") == "SwitchStmt":
+            continue
+        cref = (nb.get("term") or {}).get("cond")
+        if cref is None and nb["elems"]:
+            cref = [nb["id"], len(nb["elems"]) - 1]
+        v = value(cref) if cref is not None else None
+        if v is not None:
+            nb["succs"] = [nb["succs"][0], None] if v else [None, nb["succs"][1]]
     return True
 
 
